@@ -79,6 +79,32 @@ def make_record(mode, rid, size, odd=0):
     return b, b, b      # bin: no delimiter
 
 
+# what a 'bin' write may be handed instead of bytes: (name, item size)
+CARRIERS = (('bytearray', 1), ('memoryview', 1), ('array_H', 2), ('array_I', 4), ('array_d', 8), ('numpy_u2', 2),
+            ('numpy_2d', 4))
+
+
+def wrap_carrier(b, c):
+    name, item = CARRIERS[(c - 1) % len(CARRIERS)]
+    if len(b) % item:
+        name = 'memoryview'
+    if name == 'bytearray':
+        return bytearray(b)
+    if name == 'memoryview':
+        return memoryview(b)
+    if name.startswith('array_'):
+        import array
+        a = array.array(name[-1])
+        if a.itemsize != item:          # platform with another C type size: fall back to the byte view
+            return memoryview(b)
+        a.frombytes(b)
+        return a
+    import numpy as np
+    if name == 'numpy_u2':
+        return np.frombuffer(b, dtype=np.uint16)
+    return np.frombuffer(b, dtype=np.uint8).reshape(-1, 4)
+
+
 class MFile:
     __slots__ = ('idx', 'name', 'path', 'ino', 'us', 'recs', 'offs', 'ends', 'size', 'logical', 'deleted_step',
                  'deleted_by', 'subus', 'created_step', 'closed')
@@ -578,6 +604,9 @@ class RollWorld:
             self.probe('skipped_ops')
             return
         val, raw, back = make_record(self.mode, op['id'], op.get('size', 0), op.get('odd', 0))
+        if self.mode == 'bin' and op.get('carrier'):
+            val = wrap_carrier(val, op['carrier'])
+            self.probe('bin_buffer_write')
         ts = None
         kind = op.get('ts')
         subus = False
@@ -1113,6 +1142,10 @@ def gen_history_c13(ch, knobs):
             op = {'op': 'write', 'id': rid, 'size': size}
             if ch.chance('ops', 1, 8):
                 op['odd'] = ch.rng_int('ops', 1, len(ODD))
+            if knobs['mode'] == 'bin' and ch.chance('ops', 1, 3):
+                # bin mode takes any buffer: bytearray, memoryview, arrays with multi-byte items (len() != nbytes)
+                op['carrier'] = c = ch.rng_int('ops', 1, len(CARRIERS))
+                op['size'] = size + (-size % CARRIERS[c - 1][1])
             rid += 1
             g = knobs['given_ts']
             if g and ch.chance('ops', 1, 3):
